@@ -1,5 +1,6 @@
 import PPProofs.Props.C11
 import PPProofs.Props.C11Heap
+import PPProofs.Props.C11FromDict
 #print axioms PP.PR.copy_preserves
 #print axioms PP.PR.pickle_roundtrip
 #print axioms PP.PR.copy_same_answers
@@ -15,3 +16,7 @@ import PPProofs.Props.C11Heap
 #print axioms PP.PRHeap.copyModule_frame
 #print axioms PP.PRHeap.fixOccs_fst
 #print axioms PP.PRHeap.deepcopy_named_group_aliased_witness
+#print axioms PP.FromDict.from_dict_roundtrip
+#print axioms PP.FromDict.rt_conv
+#print axioms PP.FromDict.rt_body
+#print axioms PP.FromDict.from_dict_empty_inner_dict
